@@ -21,8 +21,24 @@ def project(rng, k):
         lines.append("class K%d_%d(def v: Int)\n    def twice(fin self) -> Int => self.v * 2" % (k, i))
         lines.append("def f%d_%d(x: Int) -> Int => x + %d" % (k, i, i))
         lines.append("print(f%d_%d(1))" % (k, i))
+        # constructs for which the generator adds imports of its own (abc, math, typing): what one file needs must not
+        # show in another
+        r = rng.random()
+        if r < 0.2:
+            lines.append(NEEDS["abc"] % {"n": "%d_%d" % (k, i)})
+        elif r < 0.35:
+            lines.append(NEEDS["math"] % {"n": "%d_%d" % (k, i)})
+        elif r < 0.5:
+            lines.append(NEEDS["typing"] % {"n": "%d_%d" % (k, i)})
         files.append((rel, "\n".join(lines) + "\n"))
     return files
+
+
+NEEDS = {
+    "abc": "type T%(n)s\n    def area(fin self) -> Int\nclass S%(n)s(def s: Int): T%(n)s\n    def area(fin self) -> Int => self.s * self.s\nprint(S%(n)s(3).area())",
+    "math": "def r%(n)s: Float := sqrt 16.0\nprint(r%(n)s)",
+    "typing": "def g%(n)s(a: Int?, b: {Int, Str}) -> Int? => a\ndef q%(n)s: Int? := g%(n)s(None, 1)\ndef t%(n)s: (Int, Str) := (1, \"a\")",
+}
 
 
 def payload(files, pre=(), annotate=0):
@@ -89,7 +105,18 @@ def run(chk):
         # an unrelated file defining only fresh names
         extra = files + [("z/extra%d.mamba" % k, "class Fresh%d\ndef fresh%d(x: Int) -> Int => x\n" % (k, k))]
         cases.append(("%s_extra" % base, "extra", extra, {r: "g" for r, _ in extra}, (), base))
-    res = chk.harness("proj", [(c[0], payload(c[2], c[4])) for c in cases], parallel=16)
+        # unrelated files that need every support import, first and last in the glob order; also with annotations on
+        needy = "\n".join(NEEDS[x] % {"n": "x%d" % k} for x in ("abc", "math", "typing")) + "\n"
+        for ei, erel in enumerate(("0_needy%d.mamba" % k, "z/needy%d.mamba" % k)):
+            extra = files + [(erel, needy)]
+            cases.append(("%s_needy%d" % (base, ei), "extra", extra, {r: "g" for r, _ in extra}, (), base))
+            cases.append(("%s_needy%d@a" % (base, ei), "extra", extra, {r: "g" for r, _ in extra}, (), base + "@a"))
+        cases.append((base + "@a", "base", files, {r: "g" for r, _ in files}, (), base + "@a"))
+        for pi, perm in enumerate(rng.sample(perms, min(len(perms), 2))):
+            cases.append(("%s_perm%d@a" % (base, pi), "perm", list(perm), {r: "g" for r, _ in files}, (), base + "@a"))
+    # the base of a group is compared with the other runs of the group: it has to come first
+    cases.sort(key=lambda c: (c[1] != "base",))
+    res = chk.harness("proj", [(c[0], payload(c[2], c[4], 1 if c[0].endswith("@a") else 0)) for c in cases], parallel=16)
     have_model = chk.proof_broken is None or chk.proof_broken[0] not in ("proof-build",)
     mreq = []
     for c in cases:
